@@ -362,13 +362,13 @@ def check_history(tag, model, log, res):
     res.traces += 1
 
 
-COMPOSED_ORACLES = ('continuity', 'volume', 'fault')
+COMPOSED_ORACLES = ('continuity', 'volume', 'fault', 'rowbal', 'stored')
 
 
 def _plan(ctx):
     return [('alzr-small-grid', ctx.n(250, 1200)), ('nicral', ctx.n(50, 300)), ('alzr-nodiff', ctx.n(120, 400)), ('alzr-loaded@rk4', ctx.n(50, 170)),
             ('nicral@rk4', ctx.n(30, 200)), ('alzr-loaded-dilute', ctx.n(200, 500)), ('nicral@2solves@rk4', ctx.n(30, 120)),
-            ('nicral-faults', ctx.n(160, 400))] + ([('alzr-fine-grid', 2500), ('almgsi-2phase-loaded', 200)] if ctx.thorough else [])
+            ('nicral-faults', ctx.n(160, 400)), ('nicral-trace', ctx.n(40, 200)), ('nicral@reset@reconfig', ctx.n(45, 150))] + ([('alzr-fine-grid', 2500), ('almgsi-2phase-loaded', 200)] if ctx.thorough else [])
 
 
 def corr(ctx, oracle_only=False, nsynth=None):
